@@ -152,6 +152,11 @@ def run(ctx):
                                                  "unchecked": "correspondence Timeouts.v accept-loop model / implementation (probe latency)"},
                       False, "%d scenario(s) where the accept-loop model mispredicts the probe latency; smallest: %s probes %s base %s"
                       % (len(bad["MA"]), a["scenario"]["name"], a.get("probe_ms"), a.get("base_ms")))
+    chk = None
+    if ctx.tier == "thorough" and not core_broken and info["rc"] == 0 and not ctx.replay:
+        chk = ctx.coqchk(GROUP, ["C15"])
+        if not chk["ok"] or chk.get("axioms") not in ("<none>",):
+            ob_failed.append("coqchk: %s" % chk)
     if ob_failed and not ctx.violations and not ctx.known_hits:
         ctx.violation("obligation-unchecked", dict(unchecked=ob_failed), False, ob_failed[0][:300])
     elif ob_failed:
@@ -182,6 +187,7 @@ def run(ctx):
             % (json.dumps(meta.get("lim")), meta.get("tol_ms")),
         ]),
         "theorems": info["theorems"],
+        "coqchk": chk,
         "table_obligations": obs,
         "unchecked_obligations": ob_failed,
         "evaluations": total,
